@@ -4,6 +4,7 @@
    Cluster/RemoteNetProofs.v (two-node system). *)
 From Coq Require Import List NArith Bool Sorted Lia Arith.
 From RV Require Import Cluster.Remote Cluster.RemoteProofs Cluster.RemoteNetProofs Cluster.RemoteReplyProofs.
+From RV Require Cluster.Writer.
 Import ListNotations.
 Local Open Scope N_scope.
 
@@ -164,6 +165,22 @@ Theorem C20_oracle_sound_proxy : forall evs st outs,
   prun pst0 evs = (st, outs) -> check_C20_proxy evs outs = true.
 Proof. exact proxy_oracle_sound. Qed.
 
+(* the session's write task (run_write_task): coalescing any number of queued frames into one
+   write is transparent — bytes on the wire ++ encodings of what is still queued = encodings of
+   everything handed to the writer, in order, for every encoding and every schedule of sends and
+   batches (the FIFO "writer channel" stage of the chain above, justified at byte level) *)
+Theorem C20_writer_transparent : forall frame (enc : frame -> list N) ls s,
+  Writer.run frame enc (Writer.init frame) ls = Some s -> Writer.dead frame s = false ->
+  Writer.wire frame s ++ Writer.encs frame enc (Writer.queue frame s)
+  = Writer.encs frame enc (Writer.sent frame ls).
+Proof. exact Writer.writer_transparent. Qed.
+
+(* after a failed write_all the wire holds a byte PREFIX of that stream: truncation only *)
+Theorem C20_writer_failure_truncates : forall frame (enc : frame -> list N) ls s,
+  Writer.run frame enc (Writer.init frame) ls = Some s ->
+  exists more, Writer.wire frame s ++ more = Writer.encs frame enc (Writer.sent frame ls).
+Proof. exact Writer.writer_failure_truncates. Qed.
+
 (* ---- statement pins ---- *)
 Check (C20_tags_fresh_proxy : forall evs st outs,
   prun pst0 evs = (st, outs) ->
@@ -274,3 +291,5 @@ Print Assumptions C20_closed.
 Print Assumptions C20_oracle_sound.
 Print Assumptions C20_oracle_sound_proxy.
 Print Assumptions C20_exit_announced.
+Print Assumptions C20_writer_transparent.
+Print Assumptions C20_writer_failure_truncates.
